@@ -178,6 +178,7 @@ func checkC03(p *core.Program, r *core.Report) {
 			r.Fail(R2, key, "", "the user-approval entry no longer takes this step: an approving server never completes")
 		}
 	}
+	checkRegisterTrust(p, r, R2)
 	// complete path exists for both roles
 	for role := int8(0); role < 2; role++ {
 		reach := map[int8]bool{f.stIdx("CmiStateInitStart"): true}
@@ -302,6 +303,92 @@ func checkC03(p *core.Program, r *core.Report) {
 	}
 	if nok == 0 {
 		r.Fail(R5, "message-driven edge into SmeHelloStateOk", "", "no hello handler sets SmeHelloStateOk")
+	}
+
+	// R6: what is done on the two edges of the "may we keep waiting for the user" predicate
+	const R6 = "C03.R6 waiting-allowed-polarity"
+	r.Rule(R6, "in the hello handlers, code reachable only on the AllowWaitingForTrust()==false edge never (re-)arms the wait timer or asks for prolongation, and code reachable only on the ==true edge never aborts")
+	abortVal := f.states[f.stIdx("SmeHelloStateAbort")].Val()
+	armFns := map[*ssa.Function]bool{}
+	for _, k := range sortedKeys(f.effects) {
+		if e := f.effects[k]; e.kind == "arm" {
+			for _, fn := range p.FuncsOf("ship") {
+				if p.FnName(fn) == e.fn {
+					armFns[fn] = true
+				}
+			}
+		}
+	}
+	isArmCall := func(in ssa.Instruction) bool {
+		c := core.Common(in)
+		if c == nil {
+			return false
+		}
+		callee := c.StaticCallee()
+		return callee != nil && armFns[callee]
+	}
+	isAbortCall := func(in ssa.Instruction) bool {
+		c, ok := in.(*ssa.Call)
+		if !ok {
+			return false
+		}
+		for _, a := range c.Call.Args {
+			if k := core.ConstOf(a); k != nil && types.Identical(a.Type(), f.stateType) && constant.Compare(k, token.EQL, abortVal) {
+				return true
+			}
+		}
+		return false
+	}
+	nAllow := 0
+	for _, fn := range p.FuncsOf("ship") {
+		for _, b := range fn.Blocks {
+			iff := core.BlockIf(b)
+			if iff == nil {
+				continue
+			}
+			v, _ := core.Truth(iff.Cond, 0)
+			call, ok := v.(*ssa.Call)
+			if !ok || !core.IsInvokeOf(call, f.mAllow) {
+				continue
+			}
+			nAllow++
+			for idx, succ := range b.Succs {
+				_, truth := core.Truth(iff.Cond, idx)
+				// region: blocks dominated by the successor when it has this block as its only predecessor
+				if len(succ.Preds) != 1 {
+					continue
+				}
+				var bad ssa.Instruction
+				for _, rb := range fn.Blocks {
+					if !succ.Dominates(rb) {
+						continue
+					}
+					for _, in := range rb.Instrs {
+						if !truth && isArmCall(in) && bad == nil {
+							bad = in
+						}
+						if truth && isAbortCall(in) && bad == nil {
+							bad = in
+						}
+					}
+				}
+				edge := "not-allowed"
+				if truth {
+					edge = "allowed"
+				}
+				key := fmt.Sprintf("%s waiting-%s branch", shortFn(p.FnName(fn)), edge)
+				if bad != nil && !truth {
+					r.Fail(R6, key, p.Pos(bad.Pos()), "the wait timer is (re-)armed only when waiting for the user's decision is NOT allowed: a peer that accepted our prolongation request stops waiting after the first period, so a later approval finds the connection gone")
+				} else if bad != nil {
+					r.Fail(R6, key, p.Pos(bad.Pos()), "the handshake is aborted on the branch where waiting for the user's decision IS allowed")
+				} else {
+					r.OK(R6, key, p.Pos(iff.Pos()), "consistent with the predicate's meaning")
+				}
+			}
+		}
+	}
+	if nAllow < 2 {
+		r.Fail(R6, "AllowWaitingForTrust branches", "", "the hello handlers no longer consult AllowWaitingForTrust")
 	}
 
 	const R4 = "C03.R4 giving-up-closes"
